@@ -653,3 +653,216 @@ Section Rel.
     - intros w [].
   Qed.
 End Rel.
+
+(* ================================================================== *)
+(* F. from_dfa / from_nfa                                              *)
+(* ================================================================== *)
+Lemma sfa_label sts q0 finals lab p q :
+  slabel (sfa_gnfa sts q0 finals lab) p q =
+  let i := fresh sts in let f := S i in
+  if memb p (i :: f :: sts) && memb q (i :: f :: sts) then
+    if Nat.eqb p i then (if Nat.eqb q q0 then Some [] else None)
+    else if Nat.eqb p f then None
+    else if Nat.eqb q i then None
+    else if Nat.eqb q f then (if memb p finals then Some [] else None)
+    else lab p q
+  else None.
+Proof. unfold sfa_gnfa. rewrite slabel_tabulate. reflexivity. Qed.
+
+Lemma map_flat_map_if {A B C} (c : A -> bool) (h : A -> B) (g : B -> C) l :
+  map g (flat_map (fun e => if c e then [h e] else []) l) = flat_map (fun e => if c e then [g (h e)] else []) l.
+Proof. induction l as [|e l IH]; simpl; [reflexivity|]. destruct (c e); simpl; rewrite IH; reflexivity. Qed.
+
+Lemma in_flat_map_if {A B} (c : A -> bool) (h : A -> B) l x :
+  In x (flat_map (fun e => if c e then [h e] else []) l) -> exists e, In e l /\ c e = true /\ x = h e.
+Proof.
+  intro H. apply in_flat_map in H. destruct H as (e & He & Hx). exists e.
+  destruct (c e); [|destruct Hx]. destruct Hx as [<-|[]]. auto.
+Qed.
+
+Lemma NoDup_flat_map_if {A B} (c : A -> bool) (h : A -> B) l :
+  NoDup (map h l) -> NoDup (flat_map (fun e => if c e then [h e] else []) l).
+Proof.
+  induction l as [|e l IH]; simpl; intro H; [constructor|]. inversion H as [|? ? Hn Hd]; subst.
+  destruct (c e); simpl; [|apply IH; exact Hd]. constructor; [|apply IH; exact Hd].
+  intro Hi. apply in_flat_map_if in Hi. destruct Hi as (e' & He' & _ & E). apply Hn. rewrite E. apply in_map. exact He'.
+Qed.
+
+Lemma onodupb_NoDup l : onodupb l = true -> NoDup l.
+Proof.
+  induction l as [|x l IH]; simpl; intro H; [constructor|].
+  apply andb_true_iff in H. destruct H as [H1 H2]. constructor; [|apply IH; exact H2].
+  intro Hi. apply negb_true_iff in H1.
+  assert (existsb (eqb_opt Nat.eqb x) l = true); [|congruence].
+  apply existsb_exists. exists x. split; [exact Hi|]. apply (eqb_opt_ok _ eqb_nat_ok). reflexivity.
+Qed.
+
+Section FromFA.
+  Variable sigma : list nat.
+  Hypothesis Hsig : forallb sym_ok sigma = true.
+  Let ok := sym_in sigma.
+
+  Lemma ok_sym_in a : ok a = true -> sym_ok a = true.
+  Proof. unfold ok, sym_in. intro H. apply andb_true_iff in H. tauto. Qed.
+
+  Lemma ok_of_in a : In a sigma -> ok a = true.
+  Proof.
+    intro H. unfold ok, sym_in. apply andb_true_iff. split; [|apply memb_In; exact H].
+    rewrite forallb_forall in Hsig. apply Hsig. exact H.
+  Qed.
+
+  Lemma grel_fa sts q0 finals slab rlab :
+    lab_rel ok slab rlab -> grel ok (sfa_gnfa sts q0 finals slab) (fa_gnfa sts q0 finals rlab).
+  Proof.
+    intros [xl H]. unfold grel. repeat split.
+    exists (fun p q =>
+      let i := fresh sts in let f := S i in
+      if memb p (i :: f :: sts) && memb q (i :: f :: sts) then
+        if Nat.eqb p i then (if Nat.eqb q q0 then Some XEps else None)
+        else if Nat.eqb p f then None
+        else if Nat.eqb q i then None
+        else if Nat.eqb q f then (if memb p finals then Some XEps else None)
+        else xl p q
+      else None).
+    intros p q. rewrite sfa_label, fa_label. cbv zeta.
+    destruct (memb p (fresh sts :: S (fresh sts) :: sts) && memb q (fresh sts :: S (fresh sts) :: sts));
+      [|repeat split; discriminate].
+    destruct (Nat.eqb p (fresh sts)).
+    { destruct (Nat.eqb q q0); repeat split; try discriminate; try (intro w; reflexivity); try (intro Hx; exact Hx).
+      intros y Hy. injection Hy as <-. reflexivity. }
+    destruct (Nat.eqb p (S (fresh sts))); [repeat split; discriminate|].
+    destruct (Nat.eqb q (fresh sts)); [repeat split; discriminate|].
+    destruct (Nat.eqb q (S (fresh sts))); [|apply H].
+    destruct (memb p finals); repeat split; try discriminate; try (intro w; reflexivity); try (intro Hx; exact Hx).
+    intros y Hy. injection Hy as <-. reflexivity.
+  Qed.
+
+  (* ---- from_dfa ---- *)
+  Lemma dfa_fold_den t : forall x r, xden x =L rden r ->
+    exists y, fold_left xdfa_step t (Some x) = Some y /\ xden y =L rden (fold_left RUnion (map RSym t) r).
+  Proof.
+    induction t as [|a t IH]; intros x r H; simpl; [exists x; auto|].
+    apply IH. intro w. simpl. unfold l_union. rewrite (H w). tauto.
+  Qed.
+
+  Lemma dfa_lab_rel d : valid_dfa d = true -> d_syms d = sigma -> lab_rel ok (sdfa_lab d) (dfa_lab d).
+  Proof.
+    intros Hv Hs.
+    exists (fun p q => match d_row d p with
+                       | Some row => fold_left xdfa_step (dfa_syms_to row q) None
+                       | None => None end).
+    intros p q. unfold sdfa_lab, dfa_lab. destruct (d_row d p) as [row|] eqn:Er; [|repeat split; discriminate].
+    set (c := fun e : nat * nat => eqb_opt Nat.eqb (assoc (fst e) row) (Some q)).
+    assert (El : flat_map (fun e => if c e then [RSym (fst e)] else []) row = map RSym (dfa_syms_to row q))
+      by (unfold dfa_syms_to; rewrite map_flat_map_if; reflexivity).
+    unfold c in El. rewrite El. split; [|split].
+    - rewrite (oshow_fold _ _ show_xdfa_step). reflexivity.
+    - destruct (dfa_syms_to row q) as [|a t]; simpl; [exact I|].
+      destruct (dfa_fold_den t (XSym a) (RSym a)) as (y & Ey & Hy); [intro w; reflexivity|].
+      rewrite Ey. exact Hy.
+    - intros y Hy. apply wfl1_lab. eapply (xdfa_fold_wf ok); [| |exact Hy]; [|intros ? E; discriminate E].
+      apply Forall_forall. intros a Ha. unfold dfa_syms_to in Ha. apply in_flat_map_if in Ha.
+      destruct Ha as (e & He & _ & ->). apply ok_of_in. rewrite <- Hs.
+      destruct (valid_dfa_parts d Hv) as (_ & _ & _ & _ & Hrow & _).
+      unfold d_row in Er. apply assoc_In in Er. specialize (Hrow _ _ Er). unfold row_ok in Hrow.
+      rewrite !andb_true_iff in Hrow. destruct Hrow as [[_ Hr] _]. rewrite forallb_forall in Hr.
+      specialize (Hr e He). apply andb_true_iff in Hr. apply memb_In. tauto.
+  Qed.
+
+  (* ---- from_nfa ---- *)
+  Lemma osym_den o : xden (osym_sx o) =L rden (osym_rex o).
+  Proof. destruct o; intro w; reflexivity. Qed.
+
+  Lemma alts3_nonnil x : alts3 ok x = true -> is_nil (show x) = false.
+  Proof.
+    intro H. pose proof (wfl_nonnil ok x 1 (alts3_wfl1 ok x H)) as Hs. destruct (show x); [congruence|reflexivity].
+  Qed.
+
+  Lemma xnfa_step_den x r o :
+    (x = XEps \/ alts3 ok x = true) -> ~ (x = XEps /\ o = None) ->
+    (forall a, o = Some a -> ok a = true) -> xden x =L rden r ->
+    exists y, xnfa_step (Some x) o = Some y /\ xden y =L rden (RUnion r (osym_rex o)) /\ alts3 ok y = true.
+  Proof.
+    intros Hg Hne Hok Hd. simpl. destruct Hg as [->|Hx].
+    - destruct o as [a|]; [|exfalso; apply Hne; auto]. simpl.
+      eexists. split; [reflexivity|]. split; [|simpl; apply Hok; reflexivity].
+      intro w. simpl. unfold l_opt, l_union. rewrite <- (Hd w). simpl. unfold l_eps. tauto.
+    - rewrite (alts3_nonnil x Hx). simpl. destruct o as [a|]; simpl.
+      + eexists. split; [reflexivity|]. split; [|simpl; rewrite Hx; apply Hok; reflexivity].
+        intro w. simpl. unfold l_union. rewrite (Hd w). tauto.
+      + destruct (isbracket_req (show x)) eqn:Eb; eexists; (split; [reflexivity|]); split.
+        * intro w. simpl. unfold l_opt, l_union, l_eps. rewrite (Hd w). tauto.
+        * simpl. pose proof (alts3_wfl1 ok x Hx) as H1. destruct x; try exact H1; discriminate.
+        * intro w. simpl. unfold l_opt, l_union, l_eps. rewrite (Hd w). tauto.
+        * simpl. apply (alts3_nobrk ok ok_sym_in); assumption.
+  Qed.
+
+  Lemma nfa_fold_den l : NoDup l -> (forall a, In (Some a) l -> ok a = true) ->
+    forall x r, (x = XEps \/ alts3 ok x = true) -> (x = XEps -> ~ In None l) -> xden x =L rden r ->
+    exists y, fold_left xnfa_step l (Some x) = Some y /\
+              xden y =L rden (fold_left RUnion (map osym_rex l) r) /\ (y = XEps \/ alts3 ok y = true).
+  Proof.
+    induction l as [|o l IH]; intros Hnd Hok x r Hg He Hd; [exists x; auto|].
+    inversion Hnd as [|? ? Hni Hnd']; subst.
+    destruct (xnfa_step_den x r o Hg) as (y & Ey & Hy & Ay).
+    - intros [-> ->]. apply He; [reflexivity|left; reflexivity].
+    - intros a ->. apply Hok. left. reflexivity.
+    - exact Hd.
+    - cbn [fold_left map]. rewrite Ey. apply IH.
+      + exact Hnd'.
+      + intros a Ha. apply Hok. right. exact Ha.
+      + right. exact Ay.
+      + intros ->. discriminate.
+      + exact Hy.
+  Qed.
+
+  Lemma nfa_lab_rel n : valid_nfa n = true -> n_syms n = sigma -> nfa_keys_nodup n = true ->
+    lab_rel ok (snfa_lab n) (nfa_lab n).
+  Proof.
+    intros Hv Hs Hk.
+    exists (fun p q => match assoc p (n_trans n) with
+                       | Some row => fold_left xnfa_step (nfa_syms_to n p row q) None
+                       | None => None end).
+    intros p q. unfold snfa_lab, nfa_lab. destruct (assoc p (n_trans n)) as [row|] eqn:Er; [|repeat split; discriminate].
+    set (c := fun e : option nat * list nat => memb q (n_targets n p (fst e))).
+    assert (El : flat_map (fun e => if c e then [osym_rex (fst e)] else []) row = map osym_rex (nfa_syms_to n p row q))
+      by (unfold nfa_syms_to; rewrite map_flat_map_if; reflexivity).
+    unfold c in El. rewrite El.
+    pose proof (assoc_In _ _ _ Er) as Hin.
+    assert (Hnd : NoDup (nfa_syms_to n p row q)).
+    { unfold nfa_syms_to. apply NoDup_flat_map_if. apply onodupb_NoDup.
+      unfold nfa_keys_nodup in Hk. rewrite forallb_forall in Hk. apply (Hk (p, row)). exact Hin. }
+    assert (Hok : forall a, In (Some a) (nfa_syms_to n p row q) -> ok a = true).
+    { intros a Ha. unfold nfa_syms_to in Ha. apply in_flat_map_if in Ha. destruct Ha as (e & He & _ & E).
+      apply ok_of_in. rewrite <- Hs. destruct (valid_nfa_parts n Hv) as (_ & Hrow & _).
+      specialize (Hrow _ _ Hin). unfold nrow_ok in Hrow. rewrite forallb_forall in Hrow.
+      specialize (Hrow e He). rewrite <- E in Hrow. apply andb_true_iff in Hrow. apply memb_In. tauto. }
+    assert (Hmain : match nfa_syms_to n p row q with
+                    | [] => True
+                    | o :: t => exists y, fold_left xnfa_step t (Some (osym_sx o)) = Some y /\
+                                          xden y =L rden (fold_left RUnion (map osym_rex t) (osym_rex o)) /\
+                                          (y = XEps \/ alts3 ok y = true)
+                    end).
+    { destruct (nfa_syms_to n p row q) as [|o t]; [exact I|].
+      apply NoDup_cons_iff in Hnd. destruct Hnd as [Hni Hnd']. apply nfa_fold_den.
+      - exact Hnd'.
+      - intros a Ha. apply Hok. right. exact Ha.
+      - destruct o as [a|]; [right; simpl; apply Hok; left; reflexivity|left; reflexivity].
+      - intro E. destruct o; [discriminate|exact Hni].
+      - apply osym_den. }
+    split; [|split].
+    - rewrite (oshow_fold _ _ show_xnfa_step). reflexivity.
+    - destruct (nfa_syms_to n p row q) as [|o t]; simpl; [exact I|].
+      destruct Hmain as (y & Ey & Hy & _). rewrite Ey. exact Hy.
+    - intros y Hy. destruct (nfa_syms_to n p row q) as [|o t]; simpl in Hy; [discriminate|].
+      destruct Hmain as (y' & Ey & _ & Gy). rewrite Ey in Hy. injection Hy as <-.
+      destruct Gy as [->|Gy]; [reflexivity|]. apply wfl1_lab. apply alts3_wfl1. exact Gy.
+  Qed.
+
+  Lemma grel_of_dfa d : valid_dfa d = true -> d_syms d = sigma -> grel ok (sgnfa_of_dfa d) (gnfa_of_dfa d).
+  Proof. intros Hv Hs. apply grel_fa. apply dfa_lab_rel; assumption. Qed.
+
+  Lemma grel_of_nfa n : valid_nfa n = true -> n_syms n = sigma -> nfa_keys_nodup n = true ->
+    grel ok (sgnfa_of_nfa n) (gnfa_of_nfa n).
+  Proof. intros Hv Hs Hk. apply grel_fa. apply nfa_lab_rel; assumption. Qed.
+End FromFA.
